@@ -431,7 +431,7 @@ func genC17(tier, out string, sum *Summary) {
 		for _, cnd := range conds {
 			for _, sel := range sels {
 				k++
-				if tier != "thorough" && k%3 != 0 {
+				if tier != "thorough" && k%3 != 0 && !map[string]bool{"n": true, "t[0]": true, "t[*]": true, "*": true, "n.x": true}[sel] {
 					continue
 				}
 				pairs := [][2]string{
